@@ -145,6 +145,11 @@ def prop(case, res):
                 if r[0] == 'ok':
                     res.violation('%s|alternative-check-accepted' % key, 'c05', case, {'number': v, 'also-valid': w})
                     break
+                if c in '05AX':
+                    iv = core.out(m.is_valid, w, **dict((k, x) for k, x in vopts.items() if k != 'strip_check_digit'))
+                    if iv == ('ok', True):
+                        res.violation('%s|alternative-check-accepted-by-is_valid' % key, 'c05', case, {'number': v, 'also-valid': w})
+                        break
     # (c) mutated payload completed with the generated check
     for mut in case.get('muts') or []:
         i, c = mut
